@@ -236,6 +236,17 @@ def impl_eval(line: str) -> str:
             return "[" + ",".join(show_period(p) for p in r) + "]"
         if op in ("span", "span>>", "span<<"):
             return impl_span_line(ws)
+        if op == "speq":
+            s1 = ir.Span(parse_endpoint(ws[1]), parse_endpoint(ws[2]), int(ws[3]))
+            s2 = ir.Span(parse_endpoint(ws[4]), parse_endpoint(ws[5]), int(ws[6]))
+            r = (s1 == s2)
+            try:
+                ne = (s1 != s2)
+            except Exception:
+                ne = None
+            if ne is not (not r):
+                return "!= is not the negation of =="
+            return B(r)
         if op == "enc":
             sp, a, b = D.get_encompassing_span(*[parse_enc_arg(w) for w in ws[1:]])
             alt = ir.Span.encompassing(*[parse_enc_arg(w) for w in ws[1:]])
@@ -437,6 +448,29 @@ def gen_span_lines(ctx: Ctx):
             for st in (-2, -1, 1, 2, 3):
                 lines.append(f"pfu {f}:{base[f]} {f}:{base[f] + d} {st}")
     lines.append("pfu Q:1 M:5 1")
+    # span == span: equal and unequal triples of one frequency, different frequencies with equal and with different steps,
+    # open ends
+    k = len(lines)
+    for _ in range(ctx.n(500, 6000)):
+        f = rng.choice(["Y", "H", "Q", "M", "D", "I"])
+        a0 = base[f] + rng.randint(-8, 8)
+        b0 = a0 + rng.randint(-6, 6)
+        st = rng.choice([1, 1, -1, 2, 3, -2])
+        kind = rng.weighted([("same", 3), ("start", 2), ("end", 2), ("step", 2), ("mixed", 4), ("mixed-step", 4), ("open", 1)])
+        g, a1, b1, st1 = f, a0, b0, st
+        if kind == "start": a1 = a0 + rng.choice([-1, 1, 2])
+        if kind == "end": b1 = b0 + rng.choice([-1, 1, 2])
+        if kind == "step": st1 = st + rng.choice([1, 2, -1]) or 1
+        if kind.startswith("mixed"):
+            g = rng.choice([x for x in ["Y", "H", "Q", "M", "D", "I"] if x != f])
+            a1, b1 = base[g] + (a0 - base[f]), base[g] + (b0 - base[f])
+            if kind == "mixed-step": st1 = st + rng.choice([1, 2, 3])
+        e = [f"{f}:{a0}", f"{f}:{b0}", f"{g}:{a1}", f"{g}:{b1}"]
+        if kind == "open":
+            e[rng.randint(0, 3)] = rng.choice(["-", "cs:1", "ce:-1"])
+        lines.append(f"speq {e[0]} {e[1]} {st} {e[2]} {e[3]} {st1}")
+        ctx.count("span_eq_" + kind)
+    ctx.count("span_eq_lines", len(lines) - k)
     # get_encompassing_span / Span.encompassing: objects with start/end attributes, sequences in any order with None
     # elements, None arguments, empty sequences, mixed frequencies within one sequence (ignored) and across arguments (rejected)
     k = len(lines)
@@ -602,6 +636,35 @@ def pyrange_list(a, b, st):
     return out
 
 
+def oracle_span_eq(ctx: Ctx, line, ws):
+    """two resolved spans of one frequency are equal iff their (start, end, step) are; spans of different frequencies are
+    never silently compared, whatever their steps"""
+    if any(w == "-" or w[0] == "c" for w in (ws[1], ws[2], ws[4], ws[5])):
+        return
+    ctx.evaluations += 1
+    fa, fb = ws[1][0], ws[4][0]
+    try:
+        s1 = ir.Span(parse_endpoint(ws[1]), parse_endpoint(ws[2]), int(ws[3]))
+        s2 = ir.Span(parse_endpoint(ws[4]), parse_endpoint(ws[5]), int(ws[6]))
+    except Exception:
+        return
+    for name, fn in (("==", lambda: s1 == s2), ("!=", lambda: s1 != s2)):
+        try:
+            r = fn()
+        except Exception:
+            if fa == fb:
+                ctx.fail("span-equality", {"line": line}, f"{name} raises on spans of one frequency")
+            continue
+        if fa != fb:
+            ctx.fail("mixed-frequency-not-rejected", {"line": line}, f"spans of different frequencies: {name} returned {r!r}")
+            return
+        want = (ws[1], ws[2], int(ws[3])) == (ws[4], ws[5], int(ws[6]))
+        if r is not (want if name == "==" else not want):
+            ctx.fail("span-equality", {"line": line}, f"{name} returned {r!r}")
+            return
+    ctx.nontriv(("speq", fa == fb, int(ws[3]) == int(ws[6])))
+
+
 def oracle_pfu(ctx: Ctx, line, ws):
     """periods_from_until(a, b, step) (and its aliases periods_from_to / daters_from_to) lists a, a+step, ... while <= b"""
     a, b, st = parse_endpoint(ws[1]), parse_endpoint(ws[2]), int(ws[3])
@@ -668,6 +731,9 @@ def oracle_spans(ctx: Ctx, lines):
             continue
         if ws[0] == "pfu":
             oracle_pfu(ctx, line, ws)
+            continue
+        if ws[0] == "speq":
+            oracle_span_eq(ctx, line, ws)
             continue
         if ws[0] not in ("span", "span>>", "span<<"):
             continue
@@ -844,7 +910,7 @@ def search(ctx: Ctx, seeds):
     ctx.tier = "quick"   # bounded: quick enumeration without thinning (~1 min)
     oracle_calendar(ctx, budget_scale=10)
     oracle_arith(ctx, gen_cmp_lines(ctx))
-    oracle_spans(ctx, gen_span_lines(ctx) + [c for c in seeds if isinstance(c, str) and (c.startswith("span") or c.startswith("enc") or c.startswith("pfu"))])
+    oracle_spans(ctx, gen_span_lines(ctx) + [c for c in seeds if isinstance(c, str) and (c.startswith("span") or c.startswith("enc") or c.startswith("pfu") or c.startswith("speq"))])
 
 
 def replay(ctx: Ctx, payload):
